@@ -39,7 +39,7 @@ CLAIMS = {
                 "C02_no_wrap_merge / _update: width-limited NumPy arithmetic equals unbounded arithmetic on exact summaries at every width "
                 "(255/256, 65535/65536, 2^32-1/2^32); C02_majority, C02_aligned, C02_narrowest. Correspondence compares stored sums, counts, "
                 "dtypes and centroids of every leaf sub-cluster with the model after every operation."
-                + GEN.format(src="utils.min_safe_uint and _py_similarity.centroid_from_sum", prop="C02"),
+                + GEN.format(src="utils.min_safe_uint, _py_similarity.centroid_from_sum and the _BFSubcluster methods of bitbirch.py (n_samples, linear_sum, replace_/add_to_n_samples_and_linear_sum, update, merge_subcluster; theorems C02_code_update, C02_code_merge in BBProofs/GenEq2.lean)", prop="C02"),
         "note": TB + "Hypothesis: the history is consistent with a labelling D (fit rows are what D says, refine gets the fitted rows), reset-free "
                 "segment. Counts >= 2^64 (where min_safe_uint raises) are modelled as a rejected merge; unreachable. The float comparison "
                 "`ls >= n*0.5` is modelled as 2k >= n (exact for n < 2^53).",
@@ -127,12 +127,13 @@ CLAIMS = {
                 "the leaf chain lists exactly the leaves of the tree once each and reading through it yields exactly those leaves. "
                 "C08_balanced: all leaves at the same depth (height-indexed type); C08_step: preserved by every single insertion. "
                 "Correspondence compares the FULL private structure (entries, caches, dtypes, capacities, chain) after every operation "
-                "and, for every fourth history, after every single insertion.",
+                "and, for every fourth history, after every single insertion."
+                + GEN.format(src="the _BFSubcluster methods of bitbirch.py (update and what it calls; theorem C08_code_update_width)", prop="C08"),
         "note": TB + "Per-node capacity (a split sibling inherits the old node's capacity, a new root takes the current branching_factor): "
                 "(a) is per node. This is the one check that reads private attributes (_root, _subclusters, _packed_centroids_buf, "
                 "_buffer.dtype, _next_leaf); a rename breaks the tie, not the property. Beyond 2^64 members the model uses an unbounded "
                 "counter where the code raises ValueError.",
-        "technique": "Lean 4 invariant proof over executable model + structural differential correspondence",
+        "technique": TGEN,
     },
     "C04": {
         "text": "C04_chunking (from every reachable state, one fit of xs ++ ys equals two consecutive fits, any cut), C04_packed (unpack . pack "
